@@ -257,3 +257,63 @@ pub proof fn canary_first_is_last(ds: Seq<DefV>, p: spec_fn(DefV) -> bool, i: in
 {
     lemma_first_match_in(ds, p);
 }
+
+// ---- C02.b completed: resolution excluding D == resolution in the world without D
+pub proof fn lemma_first_match_ext(ds: Seq<DefV>, p: spec_fn(DefV) -> bool, q: spec_fn(DefV) -> bool)
+    requires forall|d: DefV| #[trigger] p(d) == q(d)
+    ensures first_match(ds, p) == first_match(ds, q)
+    decreases ds.len()
+{
+    if ds.len() > 0 { lemma_first_match_ext(ds.drop_first(), p, q); }
+}
+pub proof fn lemma_best_same_ext(ds: Seq<DefV>, p: spec_fn(DefV) -> bool, q: spec_fn(DefV) -> bool)
+    requires forall|d: DefV| #[trigger] p(d) == q(d)
+    ensures best_same(ds, p) == best_same(ds, q)
+    decreases ds.len()
+{
+    if ds.len() > 0 { lemma_best_same_ext(ds.drop_last(), p, q); }
+}
+pub proof fn lemma_best_same_without(ds: Seq<DefV>, dx: DefV, p: spec_fn(DefV) -> bool)
+    ensures best_same(without(ds, dx), p) == best_same(ds, |d: DefV| d != dx && p(d))
+    decreases ds.len()
+{
+    reveal(Seq::filter);
+    if ds.len() > 0 {
+        let t = ds.drop_last();
+        lemma_best_same_without(t, dx, p);
+        if ne_pred(dx)(ds.last()) {
+            assert(without(ds, dx) == without(t, dx).push(ds.last()));
+            assert(without(ds, dx).drop_last() =~= without(t, dx));
+        } else {
+            assert(without(ds, dx) == without(t, dx));
+        }
+    } else {
+        assert(without(ds, dx) =~= Seq::<DefV>::empty());
+    }
+}
+pub proof fn lemma_walk_without(ds: Seq<DefV>, dx: DefV, dir: PV, prov: spec_fn(PV) -> bool)
+    ensures walk(without(ds, dx), dir, prov, fs_true()) == walk(ds, dir, prov, fs_excl(Some(dx)))
+    decreases dir.len()
+{
+    let c = conftest_of(dir);
+    lemma_first_match_without(ds, dx, p_same(c, fs_true()));
+    lemma_first_match_ext(ds, |d: DefV| d != dx && p_same(c, fs_true())(d), p_same(c, fs_excl(Some(dx))));
+    lemma_first_match_without(ds, dx, fs_true());
+    lemma_first_match_ext(ds, |d: DefV| d != dx && fs_true()(d), fs_excl(Some(dx)));
+    if pv_has_parent(dir) && dir.len() > 0 { lemma_walk_without(ds, dx, dir.drop_last(), prov); }
+}
+//@tags C02
+/// C02.b — "the next definition outward": resolving with D excluded is resolving in the index from which D has
+/// been removed (same import facts `prov`).  Chains of overrides compose: each link's self-named parameter
+/// resolves in the world minus that link.
+pub proof fn lemma_C02_b_excluding_is_world_without(ds: Seq<DefV>, dx: DefV, file: PV, prov: spec_fn(PV) -> bool)
+    ensures op_resolve(ds, file, prov, fs_excl(Some(dx))) == op_resolve(without(ds, dx), file, prov, fs_true())
+{
+    lemma_best_same_without(ds, dx, p_same(file, fs_true()));
+    lemma_best_same_ext(ds, |d: DefV| d != dx && p_same(file, fs_true())(d), p_same(file, fs_excl(Some(dx))));
+    lemma_walk_without(ds, dx, file.drop_last(), prov);
+    lemma_first_match_without(ds, dx, p_plugin(fs_true()));
+    lemma_first_match_ext(ds, |d: DefV| d != dx && p_plugin(fs_true())(d), p_plugin(fs_excl(Some(dx))));
+    lemma_first_match_without(ds, dx, p_third(fs_true()));
+    lemma_first_match_ext(ds, |d: DefV| d != dx && p_third(fs_true())(d), p_third(fs_excl(Some(dx))));
+}
